@@ -65,6 +65,16 @@ def run(tier, seed):
                                 dict(pres="minimal", nreq=8, ce=3, simulate=20, seed=seed + 9, emit=False, label="vacuum simulate")],
                       plan2, {"vacuum": True})
         CC.execute(run, "C01", g2, plan2, {"vacuum": True}, seed, max_traces=1500)
+    # non-default physical / geometric options: cosmological constant and an off-centre origin for the quantities that use one
+    opts3 = {"Lambda": 0.3, "center": (0.02, 0.3, 0.4)}
+    g3 = X.extract(opts3)
+    plan3 = CC.Plan()
+    CC.run_models(run, g3, [dict(pres="tensors", nreq=1, ce=2, label="options Lambda != 0 and an off-centre origin: 1 request exhaustive, ce=2"),
+                            dict(pres="tensors", nreq=2, ce=1000, requests="CENTRE", label="same options: 2 requests over the keys that use Lambda or the origin"),
+                            dict(pres="components", nreq=6, ce=3, simulate=(4 if tier == "quick" else 30), seed=seed + 11, emit=False,
+                                 label="same options: simulated 6 requests ce=3")], plan3, opts3, request_sets={"CENTRE": [
+                                     k for k in g3["keys"] if any(t in k for t in ("null_ray", "angmom", "fromHam", "Hamiltonian", "dtKtrace", "st_Ricci", "Einstein"))]})
+    CC.execute(run, "C01", g3, plan3, opts3, seed, max_traces=150 if tier == "quick" else 1500)
     CC.binding_demo(run, graph, seed)
     run.rule = ("histories = shortest history reaching every (key, branch leaf) of the evaluation programs in an exhaustive TLC run of "
                 "AurelCache on the graph extracted from the working tree, plus simulated longer behaviours; each is replayed on the real "
